@@ -124,6 +124,19 @@ def generate(rng, tier):
             events.append([str(c), streams[c][pos[c]:pos[c] + n].hex()])
             pos[c] += n
         cases.append({"kind": "cli", "conns": nconn, "mode": "seq" if i % 3 else "par", "events": events, "_msgs": msgs})
+    # (1b) follow mode: the running number under back-pressure (queue of 2-3, bursts, consumer in between)
+    from props import c04
+    for i in range(10 if tier == "quick" else 120):
+        ev, k = [], 0
+        for b in range(rng.randint(2, 5)):
+            n = rng.choice([1, 3, 6, 12])
+            ev.append({"w": b"".join(b"T%04d tail line\n" % (k + j + 1) for j in range(n)).hex()})
+            k += n
+            ev.append({"c": rng.randint(0, 4)})
+        ev.append({"c": 10})
+        tc = c04.mk(rng.choice([b"", b"old\n"]), rng.choice([2, 3]), None, ev)
+        tc["kind"] = "tail"
+        cases.append(tc)
     # (4) end to end
     for v in range(2 if tier == "quick" else 8):
         cases.append({"kind": "e2e", "v": v})
@@ -182,6 +195,11 @@ def run_impl(cases, tier):
     send = [{"conns": cases[i]["conns"], "mode": cases[i]["mode"], "events": cases[i]["events"]} for i in ci]
     r, _ = vf.harness_parallel("mwrite", send, shards=vf.NCPU, env={"DVERIF_LOGGER": "stdout"}, timeout=600)
     for i, x in zip(ci, r):
+        obs[i] = x
+    ti = [i for i, c in enumerate(cases) if c["kind"] == "tail"]
+    r, _ = vf.harness_parallel("tail", [{k: v for k, v in cases[i].items() if not k.startswith("_") and k != "kind"} for i in ti],
+                               shards=min(vf.NCPU, max(1, len(ti))), env={"DVERIF_PAR": "4"}, timeout=900)
+    for i, x in zip(ti, r):
         obs[i] = x
     ei = [i for i, c in enumerate(cases) if c["kind"] == "e2e"]
     with ThreadPoolExecutor(4) as ex:
@@ -299,6 +317,20 @@ def judge(cases, obs, tier):
                 sched = vf.cq_list(["(%s, %d)" % (e[0], len(e[1]) // 2) for e in c["events"]])
                 cterms.append("(%s, %s, %s)" % (vf.cq_list([vf.cq_bytes(s) for s in streams]), sched, vf.cq_bytes(out)))
                 cidx.append(i)
+        elif c["kind"] == "tail":
+            from props import c04
+            egot, equeue, drops, flags = c04.simulate(c, o)
+            if ([(bytes.fromhex(l["t"]), l["n"]) for l in o["got"]], [(bytes.fromhex(l["t"]), l["n"]) for l in o["queued"]]) != (egot, equeue):
+                o2 = c04._rerun_alone(c)
+                if o2 and "got" in o2:
+                    o = obs[i] = o2
+                    egot, equeue, drops, flags = c04.simulate(c, o)
+            for l in o["got"] + o["queued"]:
+                text = bytes.fromhex(l["t"])
+                if not (text.startswith(b"T") and text[1:5].isdigit() and int(text[1:5]) == l["n"]) or l["id"] != "theid":
+                    oracle[i] = "followed file: line %r is labelled with running number %d, id %r (lines dropped before it: %s)" % (text[:12], l["n"], l["id"], [d for d in drops if d < l["n"]][-3:])
+                    break
+            c["_drops"] = len(drops)
         elif c["kind"] == "e2e":
             big = _state["e2e"][o["v"]]
             recs, other, bad = _lines_whole(big["out"])
@@ -354,6 +386,8 @@ def sample(c, o):
     if c["kind"] == "srv":
         return {"kind": "srv", "glob": c["_glob"], "files": {k: len(v) for k, v in c["_files"].items()}, "cat_limit": c["cat_limit"], "read_buf": c["read_buf"],
                 "host": c["_host"], "frames": len((o or {}).get("frames") or []), "source_switches": c.get("_sched_switches")}
+    if c["kind"] == "tail":
+        return {"kind": "tail", "cap": c["cap"], "events": len(c["events"]), "delivered": [(l["n"], l["p"]) for l in ((o or {}).get("got") or [])][:12], "dropped_lines": c.get("_drops")}
     if c["kind"] == "cli":
         return {"kind": "cli", "conns": c["conns"], "mode": c["mode"], "events": len(c["events"]), "messages": [len(m) for m in c["_msgs"]], "connection_switches_in_stdout": c.get("_switches")}
     return {"kind": "e2e", "v": c["v"], "rc": (o or {}).get("rc"), "stdout_bytes": (o or {}).get("stdout_bytes"), "source_switches": c.get("_switches")}
@@ -364,4 +398,4 @@ def extra_coverage(cases, obs):
     return {"glob_id_pairs": len(k("gid")), "server_sessions": len(k("srv")), "server_sessions_with_interleaved_files": sum(1 for c in k("srv") if c.get("_sched_switches", 0) >= 2),
             "client_histories_seq": sum(1 for c in k("cli") if c["mode"] == "seq"), "client_histories_par": sum(1 for c in k("cli") if c["mode"] == "par"),
             "client_histories_with_interleaving": sum(1 for c in k("cli") if c.get("_switches", 0) >= 2),
-            "e2e_runs": len(k("e2e")), "e2e_source_switches": [c.get("_switches") for c in k("e2e")]}
+            "follow_mode_histories": len(k("tail")), "follow_mode_histories_with_drops": sum(1 for c in k("tail") if c.get("_drops")), "e2e_runs": len(k("e2e")), "e2e_source_switches": [c.get("_switches") for c in k("e2e")]}
